@@ -99,6 +99,9 @@ def body_factory(tier, seed):
                 rep.violation("C19:corr:relay", "model and implementation disagree on %d relayed exchange(s)" % len(broken),
                               {"kind": "correspondence", "correspondence": "relay", "cases": [meta[i] for i in broken[:3]],
                                "theorem": "relay correspondence (Model/Net.v vs three real endpoints)"}, found_input=False)
+        # 'validation accepts it' whatever the process validated before: fresh interpreters, either order
+        from harness.props import c04
+        c04.cold_orders(rep, PROP)
         if meta:
             rep.sample({k: meta[0][k] for k in ("version", "action", "request", "response")})
     return body
@@ -113,6 +116,9 @@ def run(rep, tier, seed):
 
 
 def replay(d):
+    if d.get("kind") == "cold-order":
+        from harness.props import c04
+        return c04.replay_cold(d)
     sreq, sresp = GD.snake(d["request"]), GD.snake(d["response"])
     obj = N.make_request(d["version"], d["action"], sreq, False)
     res = N.run_relay(d["version"], d["action"], obj, lambda kw: N.make_result(d["version"], d["action"], sresp, False))
